@@ -71,6 +71,10 @@ static Json genC05(const std::string &prop, uint64_t seed, const std::string &ti
     tunables(r, g);
     g.maxConns = 4; g.maxShapes = tier == "thorough" ? 10 : 8;
     if (r.chance(0.4)) g.edgeLines = 0.4;      // end points on the lines of shape sides
+    // configuration changed on the live router: the segment penalty is set anew between transactions (6 % of the edits); every
+    // orthogonal connector is then re-routed, and the reference model prices bends with the value in force
+    g.wMove = 54;
+    g.editHook = [](SceneGen &sg, Json &ops) { Json o = Json::obj(); o.set("op", "setParam"); o.set("param", (long)P_segment); o.set("value", sg.r.pick(std::vector<double>{1, 10, 50, 200})); ops.push(o); };
     ss.push(genRouterSession(r, g));
     addNoise(r, ss, tier);
     p.set("sessions", ss);
